@@ -54,8 +54,8 @@ theorem C02_text_at_prompt (τ : List Addr) (entry : Addr) (orig : Code) (exitCo
       ∀ a, (execAll (init τ entry orig exitCode) ops).1.code a
         = if a = entry ∨ a ∈ (Spec.run τ exitCode {} ops).1.B then 0xCC else orig a) := by
   obtain ⟨_, hsim⟩ := C01_simulation τ exitCode orig entry ho hcc hhead ops _ _
-    (Sim_init τ exitCode orig entry) hb hr
-  have hst := Sim_status hsim
+    (C01_sim_init τ exitCode orig entry) hb hr
+  have hst := C01_sim_status hsim
   obtain ⟨_, _, hm⟩ := hsim
   constructor
   · intro hu a
@@ -93,9 +93,9 @@ theorem C02_text_after_remove (τ : List Addr) (entry : Addr) (orig : Code) (exi
   have hr1 : NoRemoveAtEntry entry pre := fun o h => hr o (List.mem_append_left _ h)
   have hra : Op.remove a ≠ .remove entry := hr _ (List.mem_append_right _ (List.mem_singleton.mpr rfl))
   have hae : a ≠ entry := fun e => hra (e ▸ rfl)
-  obtain ⟨_, s1⟩ := C01_simulation τ exitCode orig entry ho hcc hhead pre _ _ (Sim_init τ exitCode orig entry) hb hr1
+  obtain ⟨_, s1⟩ := C01_simulation τ exitCode orig entry ho hcc hhead pre _ _ (C01_sim_init τ exitCode orig entry) hb hr1
   obtain ⟨_, s2⟩ := C01_simulation_step τ exitCode orig entry ho hcc hhead _ _ s1 (.remove a) (by simp) hra
-  have hst := Sim_status s2
+  have hst := C01_sim_status s2
   obtain ⟨_, _, hm⟩ := s2
   have hnotB : a ∉ ((Spec.run τ exitCode {} pre).1.step τ exitCode (.remove a)).1.B ∨
       ((Spec.run τ exitCode {} pre).1.step τ exitCode (.remove a)).1.status = .exited := by
